@@ -17,7 +17,7 @@ template <unsigned N, class Aut> static bool decode(const Aut& aut, SymAut<N>& o
     bool matched = false;
     for (unsigned i = 0; i < out.nrules; ++i) {
       Rule r = Univ<N>::rule(i);
-      bool m = (t.GetSymbol() == (symName ? symName[r.sym] : r.sym)) & (t.GetParent() == (stateName ? stateName[r.parent] : r.parent)) & (t.GetChildren().size() == r.rank);
+      bool m = (t.GetSymbol() == (symName ? symName[r.sym] : symnum(r.sym))) & (t.GetParent() == (stateName ? stateName[r.parent] : r.parent)) & (t.GetChildren().size() == r.rank);
       if (t.GetChildren().size() == r.rank) for (unsigned k = 0; k < r.rank; ++k) m = m & (t.GetChildren()[k] == (stateName ? stateName[r.child[k]] : r.child[k]));
       out.pres[i] = out.pres[i] | m; matched = matched | m;
     }
